@@ -114,9 +114,9 @@ def expand_calls(ctx, e, depth=2, skip=()):
             fa = ctx.an.get(fn)
             rets = [fa.def_value(0, b, k) for (b, k, part) in fa.defs().get(0, [])]
             rets = list(dict.fromkeys(rets))
-            if len(rets) == 1:
+            if 1 <= len(rets) <= 4:
                 mapping = {i + 1: a for i, a in enumerate(args)}
-                body = subst(rets[0], mapping)
-                return expand_calls(ctx, body, depth - 1, skip)
+                bodies = tuple(expand_calls(ctx, subst(r, mapping), depth - 1, skip) for r in rets)
+                return bodies[0] if len(bodies) == 1 else ('phi', bodies)
         return e[:2] + (args,) + e[3:]
     return tuple(expand_calls(ctx, x, depth, skip) if isinstance(x, tuple) else x for x in e)
